@@ -576,6 +576,7 @@ O_CONTRACTS = [
              ensures_raise={"AttributeError": [("nothing-done", "bcall_names() == []")]}),
     Contract(f"{SEND}:Sender._build_offer", props=[PROP], params={}, self_fields=SO_SELF, pre_hook=c05.bind_fs,
              raises={e: None for e in BO_EXC}, modifies=[],
+             ensures=[("nothing-consumed-yet-from-what-will-be-streamed", "result[1] is None or result[1]._read == b''")],
              internal_ensures=[(n_, x_.replace("OFFER", "result[0]").replace("FD", "result[1]")) for n_, x_ in [
                  ("exactly-one-kind-of-offer",
                   "ite(jhas(OFFER, 'message'), 1, 0) + ite(jhas(OFFER, 'file'), 1, 0) + ite(jhas(OFFER, 'directory'), 1, 0) == 1"
@@ -911,6 +912,60 @@ def regf_o():
     return reg
 
 
+# ---- Sender._check_verifier (the --verify prompt)
+G_SELF = {"_args": "obj[SArgs]", "_timing": "obj[Timing]"}
+
+G_CONTRACTS = [
+    Contract(f"{SEND}:Sender._check_verifier", props=[PROP], params={"w": "obj[Wormhole]", "verifier_bytes": "bytes"},
+             self_fields=G_SELF, raises={"TransferError": None, "EOFError": None},
+             internal_ensures=[("returns-only-after-a-yes-and-sends-nothing", "bcalls('send_message') == 0 and n_typed() >= 1 and "
+                                                                            "lower(typed(-1)) == 'yes'")],
+             ensures_raise={"TransferError": [("a-no-tells-the-peer-before-giving-up",
+                                               "bcalls('send_message') == 1 and lower(typed(-1)) == 'no' and "
+                                               "jhas(sent_dict(0), 'error')")]},
+             loops={0: {"header": "True", "invariant": ["bcalls('send_message') == 0"]}}),
+]
+
+
+def regf_go():
+    reg = regf_s()
+    install_offer_specs(reg)
+    reg.ext_models["builtins.input"] = c05_input
+    reg.exc_bases.setdefault("EOFError", "Exception")
+    for c in G_CONTRACTS:
+        reg.contracts[c.target] = c
+    return reg
+
+
+def c05_input(it, args, kw):
+    c05.may_fail(it, "input", "EOFError")
+    t = it.fresh("str", "typed")
+    it.ctx.event("input-line", t)
+    return t
+
+
+def install_offer_specs(reg):
+    sf = reg.spec_funcs
+    evs = lambda it, kind: [e[1][0] for e in it.ctx.trace if e[0] == kind]     # noqa: E731
+    sf["n_typed"] = lambda it: VInt(len(evs(it, "input-line")))
+    sf["typed"] = lambda it, k: evs(it, "input-line")[it.concrete(k)] if -len(evs(it, "input-line")) <= it.concrete(k) < len(evs(it, "input-line")) else NONE
+    sf["to_j"] = lambda it, v: VJson(to_json(it.force(v)))
+    sf["ncalls"] = lambda it, suffix: VInt(sum(1 for e in it.ctx.trace if e[0] == "call" and e[1][0].endswith(it.concrete(suffix))))
+
+    def last_call_arg(it, suffix, i):
+        es = [e for e in it.ctx.trace if e[0] == "call" and e[1][0].endswith(it.concrete(suffix))]
+        return es[-1][1][1][it.concrete(i)] if es else NONE
+
+    sf["last_call_arg"] = last_call_arg
+
+    def sent_dict(it, k):
+        """the dict handed to dict_to_bytes for the k-th send_message (assumed contract: result == json_bytes(d))"""
+        es = [e for e in it.ctx.trace if e[0] == "call" and e[1][0].endswith("dict_to_bytes")]
+        return VJson(to_json(it.force(es[it.concrete(k)][1][1][0]))) if it.concrete(k) < len(es) else NONE
+
+    sf["sent_dict"] = sent_dict
+
+
 def regf_s():
     reg = make_registry()
     install_trace_funcs(reg)
@@ -955,6 +1010,7 @@ def tasks():
     out += [ContractTask(c, regf_r_text if c.target.endswith("Receiver._handle_text") else regf_r) for c in R_CONTRACTS]
     out += [ContractTask(c, regf_o) for c in O_CONTRACTS]
     out += [ContractTask(c, regf_s) for c in S_CONTRACTS]
+    out += [ContractTask(c, regf_go) for c in G_CONTRACTS]
     out.append(FuncTask("stable-fields", stable_fields_task, True, "frame"))
     # byte-exactness also rests on (a) the download file being opened fresh (truncating "wb") at destination+".tmp"
     # - C05's _handle_file/_handle_directory contracts - and (b) the record pipe rejecting replayed / reordered
@@ -967,7 +1023,7 @@ def tasks():
     return out
 
 
-CONTRACTS = P_CONTRACTS + R_CONTRACTS + O_CONTRACTS + S_CONTRACTS
+CONTRACTS = P_CONTRACTS + R_CONTRACTS + O_CONTRACTS + S_CONTRACTS + G_CONTRACTS
 TRUSTED = [
     "z3/cvc5", "pyvc semantics of the Python subset (DESIGN 2.2)",
     "inlineCallbacks (props/deferred.py): a generator is resumed exactly once per fired Deferred with its result, or the "
@@ -1008,8 +1064,11 @@ ASSUMPTIONS = [
     "FileConsumer/consumer identity: Connection.connectConsumer is verified for FileConsumer consumers",
     "Sender._send_file / _handle_answer are verified for both kinds of _fd_to_send that _build_offer returns: a file object and a "
     "ZipStream (pre-state fork fd-kind); Sender._build_offer is verified on its own - that Sender._go stores its second result "
-    "in _fd_to_send and sends its first result as the offer is not under contract (Sender._go / go: QR code, verifier prompt, "
-    "TransitSender construction, the get_message loop)",
+    "in _fd_to_send and sends its first result as the offer is not under contract (see Sender._go below)",
+    "not under contract: Sender._go / go (a contract for _go was written - offer sent == first result of _build_offer, "
+    "_fd_to_send == its second result, normal return only after _handle_answer returned - but the function has too many "
+    "independent option forks (verify/zeromode/code/qr/tty/timer/listen x offer kinds x message shapes) for an engine without "
+    "state merging: path enumeration alone did not finish in 10 minutes); Sender._check_verifier is under contract",
     "not under contract: numfiles / numbytes of a directory offer (the comprehension over zs.info_list() and sum() of a symbolic "
     "list are outside the engine's subset: both values are arbitrary here; the receiver uses them for its free-space message "
     "only); Receiver._go / go / _get_data / _handle_code / _build_transit / _parse_transit / _send_permission",
